@@ -476,3 +476,8 @@ _m38['edits'] = [('src/lib/comp/comp.c', _m38['old'], _m38['new']),
 # SESSION7 additions to the claim (clauses added in DESIGN section 12)
 CLAIM['technique'] += '; segmentation-taint slice of the chunk-end decision (backward data/control slice inside the automatic loop; call-local sizes and positions are taint sources)'
 CLAIM['text'] += ' C16-i: the decision where an automatic chunk ends reads only content, context state and the bytes of the chunk so far - never the size of the write call or the position inside its buffer.'
+
+
+# SESSION7b additions to the claim (round 8, DESIGN 12.6)
+CLAIM['technique'] += "; taint of the zck tool's option calls (input-derived values and conditions)"
+CLAIM['text'] += ' C16-j: the zck tool configures chunking from its command line alone.'
